@@ -1,5 +1,6 @@
 import KvarnModel.Drv.Util
 import KvarnModel.Vary
+import KvarnModel.VaryConc
 namespace Drv.C05
 open Wire Drv Vary
 
@@ -36,5 +37,17 @@ def handle : List String → Option String
     let ts := hdrs.map (tupleOf rules)
     let (_, outs) := serveAll digest [] ts
     pure (listStr (outs.map fun (r, c) => s!"{r}:{boolStr c}") ++ " vary=" ++ hexOfBytes (varyHeader rules false))
+  -- conc [l<class>|f<class>|k,…] : looks, finishes and clears of overlapping requests on one page; the handler runs per class
+  | ["conc", acts] => do
+    let toks ← parseList acts
+    let as ← toks.mapM fun t =>
+      if t = "k" then some VaryConc.Act.clear
+      else if t.startsWith "l" then (t.drop 1).toString.toNat?.map VaryConc.Act.look
+      else if t.startsWith "f" then (t.drop 1).toString.toNat?.map VaryConc.Act.finish
+      else none
+    let st := VaryConc.run {} as
+    let names := ["aa", "bb", "cc", "dd", "zz", "mm", "nn"]
+    let order := st.computed.eraseDups
+    pure ("ok computations=" ++ ",".intercalate (order.map fun c => s!"{names.getD c "?"}:{VaryConc.count st c}"))
   | _ => none
 end Drv.C05
